@@ -31,6 +31,9 @@ func CaseName(i int) string {
 	if i == 44 {
 		return "enum-negative-hex"
 	}
+	if i == 45 {
+		return "tagged-fields"
+	}
 	if i >= 30 && i < 40 {
 		return "type:" + deepTypes[i-30].name
 	}
